@@ -844,7 +844,7 @@ def fs_scripts(seed, n):
         "flip2 set:a+,b-:N;set:a-,b+:N;set:a-,b+:P;poke",
         "empty set:a+,b+:N;set::N;set:b+:N;poke",
         "failw failw:a;set:a+,b+:N;okw:a;poke;set:a+,b+,c-:N;poke",
-        "failu set:a+,b+:N;failu:a;set:b+:N;poke",
+        "failu set:a+,b+:N;failu:a;set:b+:N;poke", "oku set:a+,b+:N;failu:a;set:b+:N;oku:a;poke", "oku2 set:a+,b+,c+:N;failu:a:s;failu:b;set:c+:N;oku:b;set:c+:N;oku:a;poke;poke",
         # what the back-end's error names: nothing, the configured path, a child of it (recursive back-ends), both, two children
         "shape0 failw:a:0;set:a+,b+:N;poke", "shapes failw:a:s;set:a+,b+:N;poke", "shape1 failw:a:1;set:a+,b+:N;poke",
         "shapes1 failw:a:s1;set:a+,b-:N;poke", "shape2 failw:a:2;failw:b:1;set:a+,b+,c+:N;okw:a;poke;set:a+,b+,c+,d-:P;poke",
@@ -883,7 +883,10 @@ def fs_scripts(seed, n):
             elif k < 0.14: ops.append(f"kind:{r.choice('NPQ')}")
             elif k < 0.2: ops.append(f"failw:{r.choice(names)}" + r.choice(["", "", ":0", ":s", ":1", ":1", ":s1", ":2"]))
             elif k < 0.25: ops.append(f"okw:{r.choice(names)}")
-            elif k < 0.3 and not flips: ops.append(f"failu:{r.choice(names)}" + r.choice(["", ":s", ":1", ":2"]))
+            elif k < 0.3 and not flips:
+                fu = [o.split(":")[1] for o in ops if o.startswith("failu:")]
+                if fu and r.random() < 0.5: ops.append(f"oku:{r.choice(fu)}")
+                else: ops.append(f"failu:{r.choice(names)}" + r.choice(["", ":s", ":1", ":2"]))
             elif k < 0.4: ops.append("poke")
             else: ops.append(f"set:{paths()}:{r.choice('NNNPPQ')}")
         # (a quarter of the scripts end without the extra notification: what the last change left behind is final)
@@ -928,6 +931,14 @@ def fs_oracle(script, trace, conf):
             wx_ = [w for w in want if w[:-1] == x]
             if wx_ and wx_[0] not in got:
                 return f"path {wx_[0]} failed to register earlier, stopped failing before the last change, is configured — and is still not registered: the failed registration was never attempted again"
+        # (4) a failed UNregistration is attempted again: a path whose unwatch stopped failing (`oku:x`) before a later change / poke, never
+        # fails to unwatch again, never has a watch fault and is not configured at the end must not be registered at the end
+        for x in sorted(ufaulted - {o.split(":")[1] for o in ops if o.split(":")[0] == "failw"}):
+            idx = [i for i, o in enumerate(ops) if o.split(":")[0] in ("failu", "oku") and o.split(":")[1] == x]
+            if ops[idx[-1]].split(":")[0] != "oku": continue
+            if not any(o.split(":")[0] in ("set", "poke") for o in ops[idx[-1] + 1:]): continue
+            if not any(w[:-1] == x for w in want) and any(g_[:-1] == x for g_ in got):
+                return f"path {x} is not configured any more, its unregistration failed earlier and stopped failing before the last change — yet it is still registered: the failed unregistration was never attempted again"
         failing = set(); worth = {}
         segs = trace.split(";"); si = 0
         for o in ops:
